@@ -44,6 +44,12 @@ const PROPS: [(&str, &str); 3] = [("degree", "B"), ("gpa", "4.0"), ("name", "A")
 
 /// conceal the three subject properties; returns the signed claims and the three disclosures
 fn conceal(claims_json: &str, alg_ok: bool) -> Option<(String, Vec<String>)> {
+  conceal_m(claims_json, alg_ok, 7)
+}
+
+/// conceal the subject properties selected by `mask` (the others stay in the clear); `mask = 0`: an SD-JWT whose issuer
+/// concealed nothing
+fn conceal_m(claims_json: &str, alg_ok: bool, mask: u32) -> Option<(String, Vec<String>)> {
   let mut v: Value = serde_json::from_str(claims_json).ok()?;
   {
     let subj = v.get_mut("vc")?.get_mut("credentialSubject")?.as_object_mut()?;
@@ -54,6 +60,9 @@ fn conceal(claims_json: &str, alg_ok: bool) -> Option<(String, Vec<String>)> {
   let mut enc = SdObjectEncoder::new(&v.to_string()).ok()?;
   let mut ds = vec![];
   for (i, (k, _)) in PROPS.iter().enumerate() {
+    if mask >> i & 1 == 0 {
+      continue;
+    }
     ds.push(enc.conceal(&format!("/vc/credentialSubject/{}", k), Some(format!("salt{}", i))).ok()?.to_string());
   }
   enc.add_sd_alg_property();
@@ -66,6 +75,7 @@ fn conceal(claims_json: &str, alg_ok: bool) -> Option<(String, Vec<String>)> {
 
 fn presented(variant: &str, ds: &[String]) -> Option<Vec<String>> {
   let all: Vec<String> = ds.to_vec();
+  let forged = b64(b"[\"saltX\",\"role\",\"admin\"]");
   Some(match variant.chars().next()? {
     'd' => {
       let mask: u32 = variant[1..].parse().ok()?;
@@ -73,15 +83,37 @@ fn presented(variant: &str, ds: &[String]) -> Option<Vec<String>> {
     }
     'F' => {
       let mut v = all;
-      v.push(b64(b"[\"saltX\",\"role\",\"admin\"]"));
+      v.push(forged);
       v
     }
-    'U' => vec![ds[0].clone(), ds[1].clone(), ds[0].clone()],
+    'U' => {
+      let mut v = all;
+      v.truncate(2);
+      v.push(ds.first().cloned().unwrap_or(forged));
+      v
+    }
     'R' => all.into_iter().rev().collect(),
-    'A' => vec![ds[0].clone(), b64(b"[\"salt1\",\"gpa\",\"5.0\"]"), ds[2].clone()],
+    'A' => {
+      let mut v = all;
+      let altered = b64(b"[\"salt1\",\"gpa\",\"5.0\"]");
+      if v.len() > 1 {
+        v[1] = altered;
+      } else {
+        v.push(altered);
+      }
+      v
+    }
     'G' => {
       let mut v = all;
       v.push("not-a-disclosure".into());
+      v
+    }
+    // all + a string that is no base64url and holds multi-byte characters behind `pad` ASCII characters (error paths
+    // that echo, cut or index the offending disclosure)
+    'M' => {
+      let pad: usize = variant[1..].parse().ok()?;
+      let mut v = all;
+      v.push(format!("{}\u{e9}\u{20ac}\u{1f600}\u{e9}\u{20ac}\u{1f600}\u{e9}\u{e9}", "a".repeat(pad)));
       v
     }
     _ => return None,
@@ -115,12 +147,13 @@ fn cred(args: &[&str]) -> String {
   let (signed, ds) = if m.get("cl").map(|s| s.as_str()) == Some("J") {
     (claims.clone(), vec![])
   } else {
-    match conceal(&claims, true) {
+    let mask: u32 = m.get("sdc").and_then(|x| x.parse().ok()).unwrap_or(7);
+    match conceal_m(&claims, true, mask) {
       Some(x) => x,
       None => return "bad-request".into(),
     }
   };
-  let pres = if ds.is_empty() { vec![] } else { presented(&variant, &ds).unwrap_or_default() };
+  let pres = if m.get("cl").map(|s| s.as_str()) == Some("J") { vec![] } else { presented(&variant, &ds).unwrap_or_default() };
   let jwt = sign_compact(&hdr, &signed, sig);
   let sd = SdJwt::new(jwt, pres.clone(), None);
   let v = SdJwtCredentialValidator::with_signature_verifier(ToyVerifier, SdObjectDecoder::new_with_sha256());
@@ -245,10 +278,15 @@ fn kb(args: &[&str]) -> String {
       jo = jo.method_scope(sc);
     }
     let mut o = KeyBindingJWTValidationOptions::default().jws_verifier_options(jo);
-    if let Some(n) = oi(&om, "n")? {
+    // `E`: the expected value is the empty string (no key-binding JWT of this stream carries it)
+    if om.get("n").map(|x| x.as_str()) == Some("E") {
+      o = o.nonce("");
+    } else if let Some(n) = oi(&om, "n")? {
       o = o.nonce(format!("n{}", n));
     }
-    if let Some(a) = oi(&om, "a")? {
+    if om.get("a").map(|x| x.as_str()) == Some("E") {
+      o = o.aud("");
+    } else if let Some(a) = oi(&om, "a")? {
       o = o.aud(format!("a{}", a));
     }
     if let Some(e) = oi(&om, "e")? {
@@ -340,9 +378,12 @@ pub fn run(args: &[&str]) -> String {
 
 // ---------------------------------------------------------------------------------------------------------
 fn sd_fact(variant: &str) -> (u8, u8) {
+  sd_fact_m(variant, 7)
+}
+fn sd_fact_m(variant: &str, mask: u32) -> (u8, u8) {
   // computed once on the reference construction: the decoder's verdict and whether any property is disclosed
   let base = r#"{"iss":"did:ex:i1","nbf":100,"vc":{"@context":"https://www.w3.org/2018/credentials/v1","type":"VerifiableCredential","credentialSubject":{}}}"#;
-  let (signed, ds) = conceal(base, true).unwrap();
+  let (signed, ds) = conceal_m(base, true, mask).unwrap();
   let pres = presented(variant, &ds).unwrap();
   let v: Value = serde_json::from_str(&signed).unwrap();
   match SdObjectDecoder::new_with_sha256().decode(v.as_object().unwrap(), &pres) {
@@ -377,6 +418,27 @@ pub fn gen(thorough: bool, seed: u64, out: &mut impl Write) {
           }
         }
       }
+    }
+  }
+  // issuers that conceal only some properties, or nothing at all, with every disclosure variant; and disclosures that
+  // are no base64url and hold multi-byte characters at every offset
+  let tokm = |sig: u32, v: &str, mask: u32, sub: bool| -> String {
+    let (ok, empty) = sd_fact_m(v, mask);
+    let cl = if sub { cl.to_string() } else { cl.replace("sub=2", "sub=~") };
+    format!("T=kid:1.0.1;hn:~;sig:{};cl:{};ctx:1;typ:1;spe:0;nt:~;st:b7;sdv:{};sdc:{};sd:{};sdspe:{}", sig, cl, v, mask, ok, empty)
+  };
+  for mask in [0u32, 1, 5, 6] {
+    for v in variants {
+      for sub in [true, false] {
+        for sig in [11u32, 77] {
+          writeln!(out, "C16 cred {} {} {}", doc, tokm(sig, v, mask, sub), opt("~", "~", 500, 200, "strict", 0)).unwrap();
+        }
+      }
+    }
+  }
+  for pad in 0..(if thorough { 140 } else { 48 }) {
+    for mask in [7u32, 0] {
+      writeln!(out, "C16 cred {} {} {}", doc, tokm(11, &format!("M{}", pad), mask, true), opt("~", "~", 500, 200, "strict", 0)).unwrap();
     }
   }
   // inconsistent claims and a payload that is no claims set, under each variant
@@ -430,7 +492,7 @@ pub fn gen(thorough: bool, seed: u64, out: &mut impl Write) {
   // issuance window edges, options present / absent, the wall clock branch, scope and method id
   for iat in [49i64, 50, 51, 100, 149, 150, 151, -62167219200, -62167219201, 253402300799, 253402300800] {
     for (e, l) in [("50", "150"), ("~", "150"), ("50", "~"), ("~", "~")] {
-      for (n, a) in [("7", "4"), ("~", "~"), ("8", "~"), ("~", "5")] {
+      for (n, a) in [("7", "4"), ("~", "~"), ("8", "~"), ("~", "5"), ("E", "4"), ("7", "E"), ("E", "E")] {
         writeln!(out, "C16 kb {} K=p:1;alg:1;typ:k;kid:2.0.1;sig:21;cl:h=1,n=7,a=4,iat={} O=mid:~;sc:~;n:{};a:{};e:{};l:{};now:{}", hdoc, iat, n, a, e, l, now).unwrap();
       }
     }
@@ -457,8 +519,8 @@ pub fn gen(thorough: bool, seed: u64, out: &mut impl Write) {
       r.pick(&[100i64, 49, 151, 253402300800]),
       r.pick(&["~", "~", "2.0.1", "2.0.2"]),
       r.pick(&["~", "~", "vm", "0"]),
-      r.pick(&["7", "~"]),
-      r.pick(&["4", "~"]),
+      r.pick(&["7", "7", "~", "E"]),
+      r.pick(&["4", "4", "~", "E"]),
       r.pick(&["50", "~"]),
       r.pick(&["150", "~"]),
       now
